@@ -36,3 +36,41 @@ Theorem C10_unread_field_is_unobservable : forall c l,
   end.
 Proof. intros c l H st1 st2 HR. exact (exec_list_Rc' c l H st1 st2 HR). Qed.
 Print Assumptions C10_unread_field_is_unobservable.
+
+(** the reported set along a schedule: equivalence modulo a set of configuration fields composes by union,
+    may be weakened, and an operation that preserves everything (property C01) reports the empty set *)
+Definition eqv_mod (F : list cfgfield) (p q : proc) : Prop :=
+  forall inp bufs cfg, run p inp = Done bufs cfg ->
+    exists cfg', run q inp = Done bufs cfg' /\ forall k, ~ In k F -> lookup k cfg = lookup k cfg'.
+
+Theorem C10_modset_compose : forall F1 F2 p q r,
+  eqv_mod F1 p q -> eqv_mod F2 q r -> eqv_mod (F1 ++ F2) p r.
+Proof.
+  intros F1 F2 p q r H1 H2 inp bufs cfg Hp.
+  destruct (H1 inp bufs cfg Hp) as [cfg1 [Hq E1]]. destruct (H2 inp bufs cfg1 Hq) as [cfg2 [Hr E2]].
+  exists cfg2. split; [exact Hr|]. intros k Hk.
+  rewrite E1, E2; [reflexivity| |]; intro Hin; apply Hk, in_or_app; [right|left]; exact Hin.
+Qed.
+Print Assumptions C10_modset_compose.
+
+Theorem C10_modset_weaken : forall F G p q, incl F G -> eqv_mod F p q -> eqv_mod G p q.
+Proof.
+  intros F G p q Hi H inp bufs cfg Hp. destruct (H inp bufs cfg Hp) as [cfg' [Hq E]].
+  exists cfg'. split; [exact Hq|]. intros k Hk. apply E. intro Hin. apply Hk, Hi, Hin.
+Qed.
+Print Assumptions C10_modset_weaken.
+
+Theorem C10_preserving_step_reports_nothing : forall p q,
+  (forall inp bufs cfg, run p inp = Done bufs cfg -> run q inp = Done bufs cfg) -> eqv_mod [] p q.
+Proof. intros p q H inp bufs cfg Hp. exists cfg. split; [apply H, Hp|reflexivity]. Qed.
+Print Assumptions C10_preserving_step_reports_nothing.
+
+Theorem C10_delete_config_modset : forall c formals preds pre rhs post,
+  forallb (noread_s c) post = true ->
+  eqv_mod [c] (Proc formals preds (pre ++ WriteCfg c rhs :: post)) (Proc formals preds (pre ++ post)).
+Proof.
+  intros c formals preds pre rhs post H inp bufs cfg Hp.
+  destruct (delete_config_write c formals preds pre rhs post inp bufs cfg H Hp) as [cfg' [Hq E]].
+  exists cfg'. split; [exact Hq|]. intros k Hk. apply E. intro Heq. apply Hk. left. symmetry. exact Heq.
+Qed.
+Print Assumptions C10_delete_config_modset.
